@@ -20,3 +20,14 @@ Definition eval_syscase (k : syscase) : string :=
                    [T.EvSubmit T.CEnable T.SFuture; T.EvRecv; T.EvConnect true; T.EvSubmit (T.CReq rq) T.SFuture; T.EvRecv]) in
   show_verdict (SystemClient.verdict_for 0 (SystemClient.client_system cfg (fun _ => y_req k) st (y_chunks k) (y_fin k)))
   ++ "|" ++ show_verdict (SS.ref_client_result (y_req k) 0%N (List.concat (y_chunks k)) (y_fin k)).
+
+(* a sequence of exchanges on one connection: request k (id k, transaction id k) in flight, its chunks *)
+From Rodbus Require Model.SystemClientSession Spec.SystemClientSessionSpec.
+Definition eval_session (xs : list (CT.request * list (list N))) : string :=
+  let cfg := {| T.cfg_cap := 4; T.cfg_res := 1000000%N |} in
+  let st k := T.set_ph (T.init 1 None 20000000%N 40000000%N)
+                (T.PInFlight {| T.rq_id := k; T.rq_kind := T.KRead; T.rq_timeout := 1000000000%N |} (N.of_nat k) 1000000000%N) in
+  let reqs k := nth k (map fst xs) (CT.RReadHoldingRegisters (0, 1)%N) in
+  let sys := SystemClientSession.client_session cfg reqs (map (fun p => (st (fst p), fst p, snd (snd p))) (combine (seq 0 (List.length xs)) xs)) in
+  let spec := Spec.SystemClientSessionSpec.ref_session [] (map (fun p => (fst (snd p), N.of_nat (fst p), List.concat (snd (snd p)))) (combine (seq 0 (List.length xs)) xs)) in
+  show_list show_verdict " " sys ++ "|" ++ show_list show_verdict " " spec.
